@@ -14,6 +14,7 @@ import (
 )
 
 func init() {
+	vx.Register("VH_C04_exact", VH_C04_exact)
 	vx.Register("VH_C04_invoke", VH_C04_invoke)
 	vx.Register("VH_C04_apply", VH_C04_apply)
 }
@@ -415,4 +416,82 @@ func VH_C04_apply() {
 	vx.Assert(tgt.c == 0 && tgt.E == 99, "C04/Apply: unexported and untagged fields are left alone")
 	vx.Assert(w.scopes[0].Apply(42) == nil, "C04/Apply: a non-struct is ignored")
 	vx.Observe("apply", err != nil)
+}
+
+
+// ---- harness: "exactly its type" for types that have assignable look-alikes -----
+
+type vList []int
+type vFn func() int
+type vDict map[string]int
+
+// VH_C04_exact: a parameter of a named slice / func / map type or of a
+// directional channel type is resolved only by a registration of exactly that
+// type; a registration of the unnamed (or bidirectional) type with the same
+// underlying type does not count.
+func VH_C04_exact() {
+	inj := New()
+	parent := New()
+	inj.SetParent(parent)
+	regLookalike := vx.Bool()
+	regExact := vx.Bool()
+	inParent := vx.Bool()
+	target := inj
+	if inParent {
+		target = parent
+	}
+	which := vx.Choice(4)
+	calls := 0
+	var f interface{}
+	name := ""
+	switch which {
+	case 0:
+		if regLookalike {
+			target.Map([]int{1})
+		}
+		if regExact {
+			target.Map(vList{2})
+		}
+		f = func(l vList) { calls++ }
+		name = "inject.vList"
+	case 1:
+		if regLookalike {
+			target.Map(func() int { return 1 })
+		}
+		if regExact {
+			target.Map(vFn(func() int { return 2 }))
+		}
+		f = func(fn vFn) { calls++ }
+		name = "inject.vFn"
+	case 2:
+		if regLookalike {
+			target.Map(map[string]int{})
+		}
+		if regExact {
+			target.Map(vDict{})
+		}
+		f = func(d vDict) { calls++ }
+		name = "inject.vDict"
+	case 3:
+		ch := make(chan int)
+		if regLookalike {
+			target.Map(ch)
+		}
+		if regExact {
+			var ro <-chan int = ch
+			target.Set(reflect.TypeOf(ro), reflect.ValueOf(ro))
+		}
+		f = func(c <-chan int) { calls++ }
+		name = "<-chan int"
+	}
+	_, err := inj.Invoke(f)
+	if regExact {
+		vx.Assert(err == nil && calls == 1, "C04: a registration of exactly the parameter's type resolves it")
+	} else {
+		vx.Assert(err != nil && calls == 0, "C04: a parameter receives the value registered for exactly its type: a look-alike of the same underlying type does not resolve it")
+		if err != nil {
+			vx.Assert(strings.Contains(err.Error(), name), "C04: the error names the type")
+		}
+	}
+	vx.Observe("exact", which, regLookalike, regExact, inParent, calls)
 }
